@@ -116,6 +116,15 @@ TWINS = [
     (["--set=@ix=&index", "--select=@ix =i", "--select=(map [0] @ix) =j"], ["--select=&index =i", "--select=(map [0] &index) =j"]),
     (["--set=@m=(size .l)", "--split-by=.l", "--select=(set \"e\" . (+ :e ^.n)) =x", "--filter=(define \"q\" 1 (>= (+ @q .) 0))"],
      ["--split-by=.l", "--select=(+ . ^.n) =x", "--filter=(>= (+ 1 .) 0)"]),
+    # one macro used several times in one record on equal values of `.` - under different enclosing inputs, and before / after a name was selected
+    (["--set=@m=(* . ^.w)", "--select=(map [{\"v\": 5, \"w\": 2}, {\"v\": 5, \"w\": 3}, {\"v\": 6, \"w\": 4}, {\"v\": 5, \"w\": 7}] (| .v @m)) =r"],
+     ["--select=(map [{\"v\": 5, \"w\": 2}, {\"v\": 5, \"w\": 3}, {\"v\": 6, \"w\": 4}, {\"v\": 5, \"w\": 7}] (| .v (* . ^.w))) =r"]),
+    (["--set=@m=(concat (stringify .) ^.g)", "--split-by=[{\"v\": 5, \"g\": \"a\"}, {\"v\": 5, \"g\": \"b\"}, {\"v\": 5, \"g\": \"c\"}]", "--select=(| .v @m) =r", "--select=(| .v @m) =q"],
+     ["--split-by=[{\"v\": 5, \"g\": \"a\"}, {\"v\": 5, \"g\": \"b\"}, {\"v\": 5, \"g\": \"c\"}]", "--select=(| .v (concat (stringify .) ^.g)) =r", "--select=(| .v (concat (stringify .) ^.g)) =q"]),
+    (["--set=@d=(default /x/ 0)", "--filter=(number? @d)", "--select=(default .n 1) =x", "--select=@d =y", "--select=(default .s \"\") =x2", "--select=(push [] @d /x2/) =z"],
+     ["--filter=(number? (default /x/ 0))", "--select=(default .n 1) =x", "--select=(default /x/ 0) =y", "--select=(default .s \"\") =x2", "--select=(push [] (default /x/ 0) /x2/) =z"]),
+    (["--set=@v=:t", "--select=(push [] (set \"t\" 1 @v) (set \"t\" 2 @v) (map [0, 0] (set \"t\" ^.n @v))) =r"],
+     ["--select=(push [] 1 2 (map [0, 0] ^.n)) =r"]),
 ]
 
 
